@@ -112,6 +112,14 @@ def main():
         run.obligation('every path of one invocation runs to completion (%d paths)' % len(paths), 'unsat' if not bad else 'sat', 'unsat', 0.0, statuses=dict(collections.Counter(r.status for r in res)))
         if bad:
             run.inconclusive.append('invocation path ends with %s: %s' % (bad[0].status, str(bad[0].info)[:200]))
+        # blocking state (mutexes held, semaphore slots taken) must be the same after an invocation as before it, on every path:
+        # otherwise whether another request gets an answer at all depends on this one
+        def blocking(st):
+            return sorted((str(k), str(v if k[0] == 'mutex' else len(v[0]))) for k, v in st.heap.items() if isinstance(k, tuple) and k and ((k[0] == 'mutex' and v) or (k[0] == 'chanbuf' and v[0])))
+        base_block = blocking(setups[0].state) if setups else []
+        leaks = [r for r in paths if blocking(r.state) != base_block]
+        dead = [r for r in res if r.status == 'panic' and 'deadlock' in str(r.info)]
+        run.obligation('every path of one invocation gives back every mutex and semaphore slot it took (no request can starve the others)', 'unsat' if not (leaks or dead) else 'sat', 'unsat', 0.0)
         accesses = collections.OrderedDict()
         for r in paths:
             for a in footprint(r.state):
@@ -151,6 +159,18 @@ def main():
         run.extra['second_invocation_pairs'] = n2
         run.obligation('shared writes of one invocation: every one is ordered against every access of another invocation (%d candidate pairs, %d with a preceding invocation)' % (nq, n2), 'unsat' if not races else 'sat', 'unsat', 0.0)
         run.samples = run.extra['shared_accesses'][:6] or [{'note': 'no shared access'}]
+        if (leaks or dead) and not races:
+            what = ('a path of one invocation ends with blocking state %s still taken' % blocking(leaks[0].state)) if leaks else str(dead[0].info)
+            try:
+                failed, panicked, out = driver.replay_native('server', 'server', ['c13_native.go'], 'VerifHarness_C13_Native', {}, timeout=900, race=True)
+            except Exception as x:  # noqa
+                failed, panicked, out = [], False, repr(x)
+                run.inconclusive.append('native replay failed to run: %r' % (x,))
+            if failed or panicked:
+                run.violation('%s: later/overlapping requests depend on it -- reproduced natively (overlapping requests, three rounds: %s)' % (what, (sorted(set(failed)) or ['hang / panic'])[:1]),
+                              {'leak': what, 'native_failed': sorted(set(failed))[:5], 'native_output_tail': out[-2000:]}, key='C13:blocking-state')
+            else:
+                run.inconclusive.append('blocking-state leak (%s) not reproduced by the native run' % what)
         if races:
             w, b = races[0]
             try:
